@@ -46,6 +46,7 @@ profile. They exist because seeded changes of round 2 needed them to manifest (D
                       only the OTHER kind (`module:`), and an app in or below that file (and the mirror image)
  p_varopts_on_builtin    var_options on the built-in list `modules` / `contexts`, directly or through `from:`
  p_empty_patch_list      a download with `patches: []`
+ p_rule_text_newline  a rule whose `cmd:` (or description) was written as a YAML block scalar: it ends with a line break, or has one inside
  p_subdirs_later_doc  a multi-document file listing a sub-directory from a document that is not the first, with different defaults
 """
 import copy, random
@@ -703,6 +704,42 @@ def empty_patch_list(p, rng):
         a[kk] = ["epluser"] + list(a.get(kk) or [])
 
 
+def rule_text_newline(p, rng):
+    root = _root(p)
+    cands = [c for c in (root.get("contexts") or []) + (root.get("builders") or []) if c.get("rules")]
+    if not cands:
+        return
+    c = rng.choice(cands)
+    r = rng.choice(c["rules"])
+    how = rng.choice(["cmd-trailing", "cmd-trailing", "cmd-trailing", "cmd-inner", "description-trailing", "description-inner",
+                      "build-cmd-trailing", "build-cmd-trailing", "build-cmd-inner", "other-field", "crlf"])
+    builds = [m for k, m, path, d in _modules(p) if isinstance(m.get("build"), dict) and m["build"].get("cmd")]
+    if how.startswith("build-cmd") and builds:
+        b = rng.choice(builds)["build"]
+        cmds = b["cmd"] = [str(x) for x in b["cmd"]]
+        i = rng.randrange(len(cmds))
+        if how == "build-cmd-trailing":
+            for j in set([i, rng.randrange(len(cmds))]):
+                cmds[j] += "\n"
+        else:
+            cmds[i] = "echo a\necho b; " + cmds[i]
+        return
+    if how == "other-field":
+        r[rng.choice(["pool", "rspfile", "rspfile_content", "gcc_deps"])] = rng.choice(["x\n", "a\nb", "$out.d\n"])
+        return
+    if how == "crlf":
+        r["cmd"] = str(r.get("cmd", "")) + rng.choice(["\r\n", "\n\n", "\r", " \n"])
+        return
+    if how == "cmd-trailing":
+        r["cmd"] = str(r.get("cmd", "")) + "\n"
+    elif how == "cmd-inner":
+        r["cmd"] = "echo first\n" + str(r.get("cmd", ""))
+    elif how == "description-trailing":
+        r["description"] = str(r.get("description") or r.get("name")) + " ${out}\n"
+    else:
+        r["description"] = "line one\nline two"
+
+
 def subdirs_later_doc(p, rng):
     docs = p["files"]["laze-project.yml"]
     root = docs[0]
@@ -720,7 +757,7 @@ def subdirs_later_doc(p, rng):
 
 
 SHAPES = [("p_rule_rename_chain", rule_rename_chain), ("p_ifthen_feature_cond", ifthen_feature_cond), ("p_empty_blockallow", empty_blockallow),
-          ("p_rule_export_escape", rule_export_escape), ("p_optsrc_same_guard", optsrc_same_guard), ("p_subdirs_later_doc", subdirs_later_doc), ("p_no_link_rule_builder", no_link_rule_builder), ("p_cli_define_builtin", cli_define_builtin),
+          ("p_rule_export_escape", rule_export_escape), ("p_optsrc_same_guard", optsrc_same_guard), ("p_subdirs_later_doc", subdirs_later_doc), ("p_rule_text_newline", rule_text_newline), ("p_no_link_rule_builder", no_link_rule_builder), ("p_cli_define_builtin", cli_define_builtin),
           ("p_varopts_from_chain", varopts_from_chain), ("p_defaults_other_kind_below", defaults_other_kind_below), ("p_varopts_on_builtin", varopts_on_builtin),
           ("p_empty_patch_list", empty_patch_list), ("p_task_killed", task_killed), ("p_download_with_srcdir", download_with_srcdir), ("p_defaults_uses_removed", defaults_uses_removed), ("p_app_custom_build", app_custom_build),
           ("p_same_dldir_downloads", same_dldir_downloads), ("p_desc_with_builder", desc_with_builder), ("p_srcdir_in_root_download", srcdir_in_root_download),
